@@ -888,7 +888,14 @@ func (c *Ctx) callPure(e *Env, fn *ssa.Function, args []*Val) *Val {
 		for _, l := range sd.leaves {
 			ts = append(ts, c.H(e.st, l[0], l[1]))
 		}
-		return &Val{T: fn.Signature.Results().At(0).Type(), Term: app(sd.name, ts...)}
+		res := &Val{T: fn.Signature.Results().At(0).Type(), Term: app(sd.name, ts...)}
+		if c.quant == 0 {
+			// typing facts of the result (non-negative lengths, integer ranges)
+			if sortOf(res.T) == "Slice" || sortOf(res.T) == "Str" {
+				res = c.wf(&Val{T: res.T, Term: c.define("specres", sortOf(res.T), res.Term)})
+			}
+		}
+		return res
 	}
 	return c.callPureInline(e, fn, args)
 }
